@@ -28,7 +28,8 @@ type Op struct {
 //	fair     A: number of fair steps (FIFO own messages, FIFO deliveries, newest timeouts)
 //	sync     emulate catch-up gossip between honest nodes (queues messages)
 //	byzprop  N: target honest node, A: subset mask for block A, B: subset mask for block B, C: POLRound selector
-//	byzvote  N: byzantine validator selector, A: vote type/round selector, B: block selector, C: destination mask
+//	byzvote  N: byzantine validator selector, A: vote type/round selector, B: block selector (and copies), C: destination mask
+//	byzclaim N: target honest node, A: type/round selector, B: block selector: a +2/3 claim by a Byzantine peer
 //	split    scripted equivocation attack by a Byzantine proposer (see Split)
 //	amnesia / stalepolka   scripted lock attacks (see Amnesia, StalePolka)
 //	lateproposal  N: victim; scripted second proposal for a round that is being committed (see LateProposal)
@@ -37,7 +38,7 @@ type Op struct {
 type Stats struct {
 	Delivered, Dropped, Dups, Own, Timeouts, Crashes, Restarts int
 	ByzProposals, ByzVotes, Equivocations, Splits, StalePolkas int
-	LateProposals                                              int
+	LateProposals, ByzClaims                                   int
 	MaxRound                                                   int64
 	Locked, Unlocked                                           bool
 	Reordered                                                  bool
@@ -257,6 +258,8 @@ func (d *Driver) Apply(op Op) bool {
 		return d.byzProposal(op)
 	case "byzvote":
 		return d.byzVote(op)
+	case "byzclaim":
+		return d.byzClaim(op)
 	case "split":
 		return d.Split(op)
 	case "amnesia":
@@ -519,11 +522,48 @@ func (d *Driver) byzVote(op Op) bool {
 	}
 	d.byzSigned[key] = bid.Key()
 	dst := d.subset(op.C|1<<uint(mod(op.C/7, len(hs))), hs)
-	for _, n := range dst {
-		d.Net.Send(b.ID, n.ID, &pbft.VoteMessage{Vote: v})
+	copies := 1
+	if op.B%5 == 4 {
+		copies = 2 + mod(op.B/5, 3) // the same signed vote, sent again and again
 	}
-	d.logf("byzvote v%d t%d h%d r%d %x to %d nodes", b.ID, typ, rs.Height, round, fp(bid.Hash), len(dst))
+	for _, n := range dst {
+		for i := 0; i < copies; i++ {
+			d.Net.Send(b.ID, n.ID, &pbft.VoteMessage{Vote: v})
+		}
+	}
+	d.logf("byzvote v%d t%d h%d r%d %x to %d nodes x%d", b.ID, typ, rs.Height, round, fp(bid.Hash), len(dst), copies)
 	d.Stats.ByzVotes++
+	return true
+}
+
+// byzClaim: a Byzantine peer tells an honest node that it has seen +2/3 of the votes of a round
+// for some block id (VoteSetMaj23Message; the reactor applies the claim to the height vote set
+// directly, outside the message queue). Any peer may claim anything: the claim must only make
+// the node keep track of conflicting votes for that id, never count anything.
+func (d *Driver) byzClaim(op Op) bool {
+	bs := d.byz()
+	hs := d.honestAlive()
+	if len(bs) == 0 || len(hs) == 0 || len(d.Known) == 0 {
+		return false
+	}
+	b := bs[mod(op.C, len(bs))]
+	t := hs[mod(op.N, len(hs))]
+	rs := t.RS()
+	if rs.Votes == nil {
+		return false
+	}
+	typ := byte(types.VoteTypePrevote)
+	if op.A&1 == 1 {
+		typ = types.VoteTypePrecommit
+	}
+	round := rs.Round + int64(mod(op.A/2, 3)) - 1
+	if round < 0 {
+		round = 0
+	}
+	bid := d.Known[mod(op.B, len(d.Known))]
+	rs.Votes.SetPeerMaj23(round, typ, peerKey(b.ID), bid)
+	d.logf("byzclaim v%d -> n%d: +2/3 t%d r%d for %x", b.ID, t.ID, typ, round, fp(bid.Hash))
+	d.Stats.ByzClaims++
 	return true
 }
 
